@@ -195,7 +195,15 @@ def g_shift_name(rng):
     return w + tail
 
 
+# labels that BEGIN like a register name or an sp/zr alias but are ordinary identifiers (outside the round-trip theorem's domain
+# `IdentNameOk`, inside the property): judged by the oracle and the model-vs-parser correspondence
+REGLIKE_NAMES = ["v0_table", "x29_save", "spin_loop", "special", "split_k", "d1_tmp", "p0_mask", "w8count", "q2.tab", "zr_next",
+                 "xzr_fill", "b12_", "h3x", "s9.L", "z31loop", "wsp_adj"]
+
+
 def g_name(rng):
+    if rng.random() < 0.06:
+        return rng.choice(REGLIKE_NAMES)
     while True:
         r = rng.random()
         if r < 0.12:
